@@ -214,7 +214,11 @@ def _split_case(case):
         zs = [-30.0, -150.0, -300.0, -600.0]
         rhos = [80.0, 320.0, 640.0]
         tolL, tolD = 3e-5, 2e-4
-    for z0, z1, rho in itertools.product(zs, zs, rhos):
+    geoms = list(itertools.product(zs, zs, rhos))
+    # grazing crossings of the fictitious boundary: the connecting ray leaves within a degree of horizontal, i.e. at the very
+    # edge of the range of launch angles for which the layer sequence can be traversed at all
+    geoms += [(d + 5.0, d - 6.0, 640.0), (d - 6.0, d + 5.0, 640.0), (d + 2.0, d - 3.0, 320.0), (d - 9.0, d + 4.0, 1024.0)]
+    for z0, z1, rho in geoms:
         if abs(z0 - d) < 1.0 or abs(z1 - d) < 1.0:
             continue
         if case["kind"] == "split_antarctic" and rho < 0.3 * abs(z0 - z1):
